@@ -26,7 +26,7 @@ DoValues(st, row) ==
 DoSelectFrom(st, q) ==
   LET w == q.width IN
   IF Len(st.cols) # w THEN Res(st, ErrRes(Len(st.cols), w))
-  ELSE Res([st EXCEPT !.source = [k |-> "select", width |-> w]], OkRes)
+  ELSE Res([st EXCEPT !.source = [k |-> "select", width |-> w, star |-> "calls" \in DOMAIN q /\ Len(q.calls) > 0 /\ q.calls[1].op = "column"]], OkRes)
 
 \* values_from_panic: row by row, panics (res.panic) at the first mismatch, keeping earlier rows
 RECURSIVE DoValuesFrom(_, _, _)
@@ -58,7 +58,8 @@ RenderInsert(B, st) ==
                " VALUES " \o JoinStrs([i \in DOMAIN st.source.rows |->
                    "(" \o JoinStrs([j \in DOMAIN st.source.rows[i] |-> RenderExpr(B, FALSE, st.source.rows[i][j])], ", ") \o ")"], ", ")
           [] st.source.k = "select" ->
-               " SELECT " \o JoinStrs([i \in 1..st.source.width |-> NatToStr(900 + i)], ", "))
+               IF st.source.star THEN " SELECT * FROM " \o Prepare("s", QuoteOf(B), QuoteOf(B))
+               ELSE " SELECT " \o JoinStrs([i \in 1..st.source.width |-> NatToStr(900 + i)], ", "))
 
 (***************************  property level  ******************************)
 \* what a history has had accepted, by the property's own reading
